@@ -18,20 +18,6 @@ def leI32 (i : Int) : List UInt8 :=
 
 def bitmapBytes (bm : Nat) : List UInt8 := (List.range 32).map fun i => UInt8.ofNat (bm / 2 ^ (8 * i) % 256)
 
-/-- offset, inside the code emitted for `r`, of the instruction `_yr_re_emit` hands back in `code_ref` (`none` = the null
-    reference: nothing was recorded).  It is the node's first instruction except for an optional `e{0,m}` without loop (the
-    reference is the epilog's, BEHIND the split) and for a concatenation whose first child records nothing. -/
-def refOff (back : Bool) : Re → Option Nat
-  | .empty => none
-  | .cat a b => if back then refOff back b else refOff back a
-  | .plus a _ => refOff back a
-  | .range a lo hi _ =>
-      if decide (lo > 0) then refOff back a
-      else if decide (hi > lo + 1) || decide (hi > 2) then some 0
-      else if decide (hi > lo) || decide (hi > 1) then (refOff back a).map (· + (if decide (hi > lo) then 4 else 0))
-      else none
-  | _ => some 0
-
 /-- `emit back r sid = (code, next split id)`; `back` = EMIT_BACKWARDS (children of a concatenation in reverse order) -/
 def emit (back : Bool) : Re → Nat → List UInt8 × Nat
   | .lit b, s => ([0xA2, b], s)
@@ -61,9 +47,10 @@ def emit (back : Bool) : Re → Nat → List UInt8 × Nat
         let (cb, s2) := emit back b s1
         (ca ++ cb, s2)
   | .plus a g, s =>
-      -- L1: code for e ; split L1, L2      (L1 is the instruction recorded for e, see `refOff`)
+      -- L1: code for e ; split L1, L2      (L1 = first byte of the code for e; no split when e emits no code: e+ is e)
       let (ca, s1) := emit back a s
-      (ca ++ [if g then 0xC1 else 0xC0, UInt8.ofNat s1] ++ leI16 ((((refOff back a).getD 0 : Nat) : Int) - (ca.length : Int)), s1 + 1)
+      if ca.isEmpty then (ca, s1)
+      else (ca ++ [if g then 0xC1 else 0xC0, UInt8.ofNat s1] ++ leI16 (-(ca.length : Int)), s1 + 1)
   | .star a g, s =>
       -- L1: split L1, L2 ; code for e ; jmp L1 ; L2:
       let (ca, s1) := emit back a (s + 1)
